@@ -5,6 +5,9 @@ use errno::{errno, Errno};
 use std::ffi::{c_void, CStr};
 use std::mem::size_of;
 use std::ptr;
+#[cfg(aws_clock_bound_verif)]
+use crate::verif_shim as atomic;
+#[cfg(not(aws_clock_bound_verif))]
 use std::sync::atomic;
 
 use crate::shm_header::ShmHeader;
